@@ -4285,6 +4285,9 @@ def check_onepoint(goal, ctx):
             remain_var.append(v)
     if remain_var != r_vars:
         raise VeriTException("onepoint", "lhs doesn't keep the same variables as rhs")
+    for tm in one_val_var.values():
+        if any(tm.occurs_var(v) for v in l_vars):
+            raise VeriTException("onepoint", "one-point value mentions a quantified variable")
 
     # Substituting left side by the equations must yield the right side
     subst_lhs = l_bd
